@@ -7,8 +7,44 @@ Proof. exact DecodeSpec.C06_segment. Qed.
 Print Assumptions C06_segment.
 
 From SM Require Import Spec.Vlq Proofs.DecodeTotal Proofs.RejectProofs.
-Check C06_whole : forall nsrc nnames mappings, nsrc <= NONE -> nnames <= NONE ->
+(* the whole string: the reader IS the independent reading, for every byte string *)
+Theorem C06_whole : forall (nsrc nnames : Z) (mappings : bytes),
+  nsrc <= NONE -> nnames <= NONE ->
   decode_mappings nsrc nnames mappings [] = spec_decode_mappings nsrc nnames mappings.
-Check C06_foreign_byte : forall nsrc nn mappings b, nsrc <= NONE -> nn <= NONE ->
-  In b mappings -> b <> 59 -> b <> 44 -> digit_of b = None -> exists e, decode_mappings nsrc nn mappings [] = Err e.
-Check C06_arity. Check C06_source_range. Check C06_name_range. Check C06_unterminated. Check C06_14_digits.
+Proof. exact DecodeTotal.C06_whole. Qed.
+Print Assumptions C06_whole.
+
+(* the clauses of the statement, one by one *)
+Theorem C06_foreign_byte : forall (nsrc nn : Z) (mappings : list Z) (b : Z),
+  nsrc <= NONE -> nn <= NONE -> In b mappings -> b <> 59 -> b <> 44 -> digit_of b = None ->
+  exists e : error, decode_mappings nsrc nn mappings [] = Err e.
+Proof. exact RejectProofs.C06_foreign_byte. Qed.
+Print Assumptions C06_foreign_byte.
+
+Theorem C06_arity : forall (nsrc nn dl : Z) (fl : bool) (seg : bytes) (col : Z) (st : dstate) (nums : list Z),
+  spec_parse seg = Ok nums ->
+  length nums = 2%nat \/ length nums = 3%nat \/ (6 <= length nums)%nat ->
+  spec_segment nsrc nn dl fl seg col st = Err EBadSegmentSize.
+Proof. exact RejectProofs.C06_arity. Qed.
+Print Assumptions C06_arity.
+
+Theorem C06_source_range : forall (nsrc nn dl : Z) (fl : bool) (seg : bytes) (col : Z) (st : dstate) (c s l k : Z) (rest : list Z),
+  spec_parse seg = Ok (c :: s :: l :: k :: rest) -> (length rest <= 1)%nat ->
+  d_src st + s < 0 \/ nsrc <= d_src st + s -> spec_segment nsrc nn dl fl seg col st = Err EBadSourceRef.
+Proof. exact RejectProofs.C06_source_range. Qed.
+Print Assumptions C06_source_range.
+
+Theorem C06_name_range : forall (nsrc nn dl : Z) (fl : bool) (seg : bytes) (col : Z) (st : dstate) (c s l k n : Z),
+  spec_parse seg = Ok [c; s; l; k; n] -> 0 <= d_src st + s < nsrc ->
+  d_name st + n < 0 \/ nn <= d_name st + n -> spec_segment nsrc nn dl fl seg col st = Err EBadNameRef.
+Proof. exact RejectProofs.C06_name_range. Qed.
+Print Assumptions C06_name_range.
+
+Theorem C06_unterminated : forall (s : list Z) (c : Z), is_cont c -> exists e : error, spec_parse (s ++ [c]) = Err e.
+Proof. exact RejectProofs.C06_unterminated. Qed.
+Print Assumptions C06_unterminated.
+
+Theorem C06_14_digits : forall cs rest : list Z,
+  Forall is_cont cs -> (13 <= length cs)%nat -> exists e : error, spec_parse (cs ++ rest) = Err e.
+Proof. exact RejectProofs.C06_14_digits. Qed.
+Print Assumptions C06_14_digits.
